@@ -163,7 +163,7 @@ var funcmap = FuncMap{
 		if v, ok := v.(string); ok {
 			return []Attribute{{Name: k, Val: JavaScriptExpression(string(v)), MustEscape: e}}
 		}
-		return []Attribute{{Name: k, Val: JavaScriptExpression(fmt.Sprintf("%t", v)), MustEscape: e}}
+		return []Attribute{{Name: k, Val: JavaScriptExpression(convert(v).String()), MustEscape: e}}
 	},
 	"__attrs": func(attrs ...*Array) (res string) {
 		type tmpattr struct {
